@@ -1,3 +1,459 @@
-/- C04: property theorems (stub — not built yet) -/
+import RSVerif.Lemmas.Resume
+import RSVerif.Lemmas.RunId
+import RSVerif.Lemmas.ParseWF
+/-
+C04 — Checkpoints are atomic with the data, so resume loses and repeats nothing.
+Property theorems only (helper lemmas live in RSVerif.Lemmas.*).
+
+Everything here is stated over the `Offset`/`Db` fields the sender is handed (`C04_partial` level): that the
+tag of a command *is* the source replication offset after it needs a constant tag base, which the pinned
+tree does not have (deviation D9, owned by C08).
+-/
 namespace RSVerif.Properties.C04
+open RSVerif RSVerif.Sync RSVerif.Sender RSVerif.Spec.IncrSync RSVerif.Spec.MiniRedis
+open RSVerif.Lemmas.Sender RSVerif.Lemmas.MiniRedis RSVerif.Lemmas.SenderRedis RSVerif.Lemmas.Checkpoint
+open RSVerif.Lemmas.Resume RSVerif.Lemmas.RunId
+
+/-! ### 0. facts of the source the model depends on -/
+
+theorem send_order :
+    Generated.SyncConsts.sendFuncCalls = ["multi", "<cacheItem.Cmd>", "hset", "hset", "hset", "exec", "<Flush>"] := by
+  decide
+
+theorem field_formats : Generated.SyncConsts.checkpointFieldFormats.map (·.2) = ["%s-%s", "%s-%s", "%s-%s"] := by
+  decide
+
+/-! ### 1. shape of every flushed group -/
+
+/-- Every group written between two `Flush` calls — under any interleaving of arrivals and ticks, any
+thresholds — is non-empty and reads
+`multi; cmds…; [hset runid; hset version]; hset offset <offset of the LAST command>; exec`
+when resume is enabled (a lone `ping` is sent bare), and just `cmds…` otherwise; a `select` can only be its
+first command, and source MULTI/EXEC markers are not part of it. -/
+theorem batch_shape (cfg : Cfg) (evs : List Ev) (hwf : WF (received evs)) :
+    ∀ g ∈ (runG cfg S.init evs).2,
+      g.items ≠ [] ∧
+      g.batched = (cfg.resume && !lonePing g.items) ∧
+      (g.runId = true → g.batched = true) ∧
+      g.wire = (if g.batched then
+          [Wire.multi] ++ g.items.map Wire.fwd ++ (if g.runId then [Wire.hsetRunId, Wire.hsetVersion] else []) ++
+            [Wire.hsetOffset (lastOff g.items), Wire.exec, Wire.flush]
+        else g.items.map Wire.fwd ++ [Wire.flush]) ∧
+      (∀ x ∈ g.items.tail, x.cmd ≠ "select") ∧
+      (∀ x ∈ g.items, marker x = false) := by
+  have facts := runG_facts cfg evs S.init inv_init hwf
+  have hmem : ∀ (gs : List Group) (d0 d1 : List Int), Shaped cfg d0 gs d1 →
+      ∀ g ∈ gs, g.items ≠ [] ∧ ∃ dbs, g = (mkGroup cfg dbs g.items).1 := by
+    intro gs
+    induction gs with
+    | nil => intro _ _ _ g hg; simp at hg
+    | cons a gs ih =>
+      intro d0 d1 h g hg
+      obtain ⟨h1, h2, h3⟩ := h
+      rcases List.mem_cons.mp hg with e | e
+      · subst e; exact ⟨h1, _, h2⟩
+      · exact ih _ _ h3 g e
+  intro g hg
+  obtain ⟨hne, dbs, hgeq⟩ := hmem _ _ _ facts.shaped g hg
+  have hb := (mkGroup_batched cfg dbs g.items hne).1
+  rw [← hgeq] at hb
+  refine ⟨hne, hb, ?_, ?_, facts.heads g hg, ?_⟩
+  · intro hr
+    rw [hgeq] at hr ⊢
+    unfold mkGroup at hr ⊢
+    cases hl : g.items.getLast? with
+    | none => simp [hl] at hr
+    | some last => simp only [hl, Bool.and_eq_true] at hr ⊢; exact hr.1
+  · unfold Group.wire
+    cases g.batched <;> simp
+  · intro x hx
+    have : x ∈ (received evs).filter (fun it => !marker it) := by
+      have := facts.items
+      simp only [S.init, List.nil_append] at this
+      rw [← this]
+      exact List.mem_append_left _ (List.mem_flatMap.mpr ⟨g, hg, hx⟩)
+    simpa using (List.mem_filter.mp this).2
+
+/-- the batch on the wire, concretely: checkpoint key, `<source>-offset` field, decimal offset of the last command -/
+theorem batch_rendered (rc : RenderCfg) (g : Group) (hb : g.batched = true) :
+    renderWire rc g.wire =
+      ("multi", []) :: g.items.map cmdOf ++
+        (if g.runId then [("hset", [rc.ckName, runIdField rc, rc.runId]),
+                          ("hset", [rc.ckName, versionField rc, fmtInt Generated.SyncConsts.fcvCheckpointCurrent])]
+         else []) ++
+        [("hset", [rc.ckName, offsetField rc, fmtInt (lastOff g.items)]), ("exec", [])] := by
+  rw [render_group, hb]
+  simp only [if_true, groupBody, ckptCmds, hb, hsetCmd]
+  cases g.runId <;> simp
+
+/-- All commands of a group after its first one run in one database, and that is the database the
+checkpoint fields are written to (the connection's database when `exec` drains the queue). Hypothesis: only
+items spelled `select` are read as SELECT by the target (true without `target.db`; with `target.db` the injected
+upper-case `SELECT` re-selects the same database, see `db_routing`). -/
+theorem batch_one_db {D : Type} (apply : Int → Cmd → D → D) (rc : RenderCfg) (g : Group) (s : St D)
+    (hhead : ∀ x ∈ g.items.tail, x.cmd ≠ "select")
+    (hsel : ∀ x ∈ g.items, ∀ k, classify rc.ckName (cmdOf x) = .select k → x.cmd = "select")
+    (hpl : ∀ x ∈ g.items, plainItem rc.ckName x = true) :
+    (∀ j, 1 ≤ j → (plain rc.ckName apply s ((g.items.take j).map cmdOf)).db =
+        (plain rc.ckName apply s (groupBody rc g)).db) ∧
+    (plain rc.ckName apply s (groupBody rc g)).ckpt =
+      ckptEntries rc g (plain rc.ckName apply s (groupBody rc g)).db ++ s.ckpt := by
+  have hdbfold : ∀ (l : List Item) (x : D × Int), (∀ y ∈ l, y.cmd ≠ "select") → (∀ y ∈ l, y ∈ g.items) →
+      ((l.map cmdOf).foldl (execCore apply rc.ckName) x).2 = x.2 := by
+    intro l
+    induction l with
+    | nil => intro x _ _; rfl
+    | cons y l ih =>
+      intro x h1 h2
+      simp only [List.map_cons, List.foldl_cons]
+      rw [ih _ (fun z hz => h1 z (by simp [hz])) (fun z hz => h2 z (by simp [hz]))]
+      unfold execCore
+      split
+      · rename_i k hk
+        exact absurd (hsel y (h2 y (by simp)) k hk) (h1 y (by simp))
+      · rfl
+      · rfl
+  obtain ⟨hck, hco⟩ := plain_groupBody apply rc s g hpl
+  have hdb : (plain rc.ckName apply s (groupBody rc g)).db = (plain rc.ckName apply s (g.items.map cmdOf)).db := by
+    have := congrArg Prod.snd hco; simpa [core] using this
+  refine ⟨?_, by rw [hck, hdb]⟩
+  intro j hj
+  rw [hdb]
+  have e1 : ∀ l, (plain rc.ckName apply s l).db = (l.foldl (execCore apply rc.ckName) (core s)).2 := by
+    intro l; rw [← core_plain]; rfl
+  rw [e1, e1]
+  cases hgi : g.items with
+  | nil => simp
+  | cons a rest =>
+    cases j with
+    | zero => omega
+    | succ j =>
+      simp only [List.take_succ_cons, List.map_cons, List.foldl_cons]
+      have hr : ∀ y ∈ rest, y.cmd ≠ "select" := fun y hy => hhead y (by simp [hgi, hy])
+      have hr2 : ∀ y ∈ rest, y ∈ g.items := fun y hy => by simp [hgi, hy]
+      rw [hdbfold rest _ hr hr2, hdbfold (rest.take j) _ (fun y hy => hr y (List.mem_of_mem_take hy))
+        (fun y hy => hr2 y (List.mem_of_mem_take hy))]
+
+
+/-! ### 2. every cut leaves data and checkpoint consistent -/
+
+/-- The hypothesis on the target the run starts against, `StaleBelow rc B bdb s0`: checkpoint offsets already
+stored for this source (by earlier incarnations) parse and decrease with age; all are strictly below `B`
+(`bdb = none`: a fresh start, or a start from a checkpoint in database 0), or the newest one is `(bdb, B)` itself —
+the checkpoint this run was resumed from, whose offset the restarted parser re-uses as the tag of its `select bdb`.
+A target without checkpoint of this source satisfies it for every `B` (`staleBelow_fresh`). -/
+abbrev StaleBelow {D : Type} (rc : RenderCfg) (B : Int) (bdb : Option Int) (s0 : St D) : Prop :=
+  OffDesc (offsetField rc) B bdb s0.ckpt
+
+theorem staleBelow_fresh {D : Type} (rc : RenderCfg) (B : Int) (bdb : Option Int) (s0 : St D)
+    (h : ∀ e ∈ s0.ckpt, e.2.1 ≠ offsetField rc) : StaleBelow rc B bdb s0 := by
+  unfold StaleBelow
+  generalize s0.ckpt = l at h
+  induction l with
+  | nil => trivial
+  | cons e l ih =>
+    simp only [OffDesc, if_neg (h e (by simp))]
+    exact ih (fun x hx => h x (by simp [hx]))
+
+section
+variable {D : Type} (apply : Int → Cmd → D → D) (rc : RenderCfg)
+
+/-- **cut_consistent.** Resume enabled; any history handed to the sender (well-formed, offsets increasing,
+forwarded commands read by the target as SELECT/PING/data); any interleaving of arrivals and ticks, any
+thresholds; any number `p` of commands that reached the target before the connection or the process was cut
+(inside or outside a MULTI block; the open transaction is discarded). Then, for the checkpoint the loader must
+return (the database holding the greatest stored offset `X`):
+the dataset is exactly the history up to `X` applied in order, each command once, and — unless it is an older
+checkpoint than the one this run started from — `dbX` is the database selected after that prefix. Without any
+stored offset the dataset is untouched. Data commands are arbitrary (`apply`), in particular not idempotent.
+The start is either fresh (`bdb = none`) or itself a resume from `(bdb, B)` (`StartsAt`), so the statement applies
+again after every restart. -/
+theorem cut_consistent (cfg : Cfg) (hres : cfg.resume = true) (evs : List Ev) (hwf : WF (received evs))
+    (hpl : ∀ it ∈ history evs, plainItem rc.ckName it = true)
+    (hinc : (received evs).Pairwise (fun a b => a.off < b.off))
+    (s0 : St D) (hq : s0.q = none) (B : Int) (bdb : Option Int) (hB : ∀ it ∈ received evs, B ≤ it.off)
+    (hstart : StartsAt rc.ckName B bdb s0.db (history evs))
+    (hstale : StaleBelow rc B bdb s0) (p : Nat) :
+    let st := drop (replay rc.ckName apply s0 ((renderWire rc (run cfg S.init evs).2).take p))
+    (∀ dbX X, NewestCheckpoint st (offsetField rc) dbX X →
+      let upto := ((history evs).filter (fun it => decide (it.off ≤ X))).map cmdOf
+      st.data = (plain rc.ckName apply s0 upto).data ∧
+      (B ≤ X → (plain rc.ckName apply s0 upto).db = dbX)) ∧
+    ((∀ d, storedInt st d (offsetField rc) = none) → st.data = s0.data) := by
+  intro st
+  obtain ⟨done, rest, hsplit, hsum⟩ :=
+    cut_summary apply rc cfg hres evs hwf s0 hq hpl hinc B bdb hB hstart.firstAt hstale p
+  have hBn : ∀ it ∈ nonMarkers (received evs), B ≤ it.off := fun it hit => hB it (List.mem_filter.mp hit).1
+  obtain ⟨h1, h2⟩ := summary_consistent apply rc s0 st (nonMarkers (received evs)) done rest hsplit
+    (increasing_nonMarkers _ hinc) hsum B bdb hBn hstart hstale
+  refine ⟨?_, fun hn => by have := congrArg Prod.fst (h2 hn); simpa [core] using this⟩
+  intro dbX X hn upto
+  obtain ⟨hc, hd, _⟩ := h1 dbX X hn
+  have hcp : core (plain rc.ckName apply s0 upto) =
+      upto.foldl (execCore apply rc.ckName) (core s0) := core_plain apply rc.ckName s0 upto
+  refine ⟨?_, fun hbx => ?_⟩
+  · have := congrArg Prod.fst hcp
+    simp only [core] at this
+    rw [this]; exact hc.symm
+  · have := congrArg Prod.snd hcp
+    simp only [core] at this
+    rw [this]; exact hd hbx
+
+/-- an uninterrupted run that ends flushed executes the whole history, each command once, in order -/
+theorem uninterrupted (cfg : Cfg) (evs : List Ev) (hwf : WF (received evs))
+    (hpl : ∀ it ∈ history evs, plainItem rc.ckName it = true)
+    (s0 : St D) (hq : s0.q = none) (hflush : (run cfg S.init evs).1.cache = []) :
+    (replay rc.ckName apply s0 (renderWire rc (run cfg S.init evs).2)).data =
+      (plain rc.ckName apply s0 ((history evs).map cmdOf)).data := by
+  have h := (flushed_run_core apply rc cfg evs hwf s0 hq hpl hflush).1
+  have h2 := core_plain apply rc.ckName s0 ((history evs).map cmdOf)
+  have := congrArg Prod.fst (h.trans h2.symm)
+  simpa [core] using this
+
+/-- **resume_equiv.** Cut the first run anywhere (`p`), let the loader return `(dbX, X)` — a checkpoint written
+by this run — and restart: a new connection (database 0, no transaction), the parser sends `select dbX` first
+when `dbX ≠ 0` and the source resends everything after offset `X` (`resumeItems`); the second run may batch in
+any way (`cfg2`, `evs2`) and ends flushed. The final dataset is that of the whole history applied once, in
+order — the dataset of an uninterrupted run (`uninterrupted`): nothing lost, nothing applied twice, although
+`apply` is arbitrary (commands are not assumed idempotent). -/
+theorem resume_equiv (cfg : Cfg) (hres : cfg.resume = true) (evs : List Ev) (hwf : WF (received evs))
+    (hpl : ∀ it ∈ history evs, plainItem rc.ckName it = true)
+    (hinc : (received evs).Pairwise (fun a b => a.off < b.off))
+    (s0 : St D) (hq : s0.q = none) (B : Int) (bdb : Option Int) (hB : ∀ it ∈ received evs, B ≤ it.off)
+    (hstart : StartsAt rc.ckName B bdb s0.db (history evs))
+    (hstale : StaleBelow rc B bdb s0) (p : Nat)
+    (dbX X : Int)
+    (hload : NewestCheckpoint (drop (replay rc.ckName apply s0 ((renderWire rc (run cfg S.init evs).2).take p)))
+      (offsetField rc) dbX X)
+    (hown : B ≤ X)
+    (cfg2 : Cfg) (evs2 : List Ev) (hrecv2 : received evs2 = resumeItems (received evs) dbX X)
+    (hflush2 : (run cfg2 S.init evs2).1.cache = []) :
+    let st := drop (replay rc.ckName apply s0 ((renderWire rc (run cfg S.init evs).2).take p))
+    (replay rc.ckName apply (reconnect st) (renderWire rc (run cfg2 S.init evs2).2)).data =
+      (plain rc.ckName apply s0 ((history evs).map cmdOf)).data := by
+  intro st
+  obtain ⟨done, rest, hsplit, hsum⟩ :=
+    cut_summary apply rc cfg hres evs hwf s0 hq hpl hinc B bdb hB hstart.firstAt hstale p
+  have hBn : ∀ it ∈ nonMarkers (received evs), B ≤ it.off := fun it hit => hB it (List.mem_filter.mp hit).1
+  have hincn := increasing_nonMarkers _ hinc
+  obtain ⟨h1, _⟩ := summary_consistent apply rc s0 st (nonMarkers (received evs)) done rest hsplit
+    hincn hsum B bdb hBn hstart hstale
+  obtain ⟨hc, hd, _⟩ := h1 dbX X hload
+  -- dataset and database after the history up to X are what the restarted run starts from
+  have hr : (((nonMarkers (received evs)).filter (fun it => decide (it.off ≤ X))).map cmdOf).foldl
+      (execCore apply rc.ckName) (core s0) = (st.data, dbX) := Prod.ext hc (hd hown)
+  -- the second run
+  have hwf2 : WF (received evs2) := by rw [hrecv2]; exact wf_resumeItems _ hwf hinc dbX X
+  have hnm2 : nonMarkers (received evs2) =
+      startSelect dbX X ++ (nonMarkers (received evs)).filter (fun it => decide (X < it.off)) := by
+    rw [hrecv2, resumeItems, nonMarkers_append, startSelect_nonMarker, nonMarkers_filter]
+  have hpl2 : ∀ it ∈ nonMarkers (received evs2), plainItem rc.ckName it = true := by
+    rw [hnm2]
+    intro it hit
+    rcases List.mem_append.mp hit with h | h
+    · exact startSelect_plain _ _ _ it h
+    · exact hpl it (List.mem_filter.mp h).1
+  have hrun2 := (flushed_run_core apply rc cfg2 evs2 hwf2 (reconnect st) rfl hpl2 hflush2).1
+  have hcore0 : core (reconnect st) = (st.data, 0) := rfl
+  rw [hnm2, List.map_append, List.foldl_append, hcore0, startSelect_core, ← hr, ← List.foldl_append,
+    ← List.map_append, ← filter_split _ hincn X] at hrun2
+  have h2 := core_plain apply rc.ckName s0 ((history evs).map cmdOf)
+  have := congrArg Prod.fst (hrun2.trans h2.symm)
+  simpa [core] using this
+
+/-- The hypotheses reproduce themselves: after a cut, the reconnected target together with the restarted stream
+satisfies `StartsAt`/`hB` of `cut_consistent` for the loaded checkpoint `(dbX, X)` — the theorem applies to the
+resumed run, and to the run resumed from that one, and so on. -/
+theorem resumed_start (items : List Item) (hinc : items.Pairwise (fun a b => a.off < b.off)) (dbX X : Int)
+    {D : Type} (st : St D) :
+    StartsAt rc.ckName X (some dbX) (reconnect st).db (nonMarkers (resumeItems items dbX X)) ∧
+    (∀ it ∈ resumeItems items dbX X, X ≤ it.off) ∧
+    (resumeItems items dbX X).Pairwise (fun a b => a.off < b.off) := by
+  have hfilt : ∀ it ∈ items.filter (fun it => decide (X < it.off)), X < it.off := by
+    intro it hit; simpa using (List.mem_filter.mp hit).2
+  refine ⟨?_, ?_, ?_⟩
+  · rw [resumeItems, nonMarkers_append, startSelect_nonMarker]
+    by_cases h0 : dbX = 0
+    · right; right
+      subst h0
+      refine ⟨?_, rfl⟩
+      intro it hit
+      simp only [startSelect, if_true, List.nil_append] at hit
+      exact hfilt it (List.mem_filter.mp hit).1
+    · right; left
+      refine ⟨{ cmd := "select", args := [fmtInt dbX], off := X, db := dbX },
+        nonMarkers (items.filter (fun it => decide (X < it.off))), dbX, by simp [startSelect, h0], rfl, ?_, rfl⟩
+      simp [cmdOf, classify_select]
+  · intro it hit
+    rcases List.mem_append.mp hit with h | h
+    · unfold startSelect at h; split at h
+      · simp at h
+      · simp at h; subst h; exact Int.le_refl _
+    · have := hfilt it h; omega
+  · rw [resumeItems, List.pairwise_append]
+    refine ⟨?_, List.Pairwise.filter _ hinc, ?_⟩
+    · unfold startSelect; split <;> simp
+    · intro a ha b hb
+      unfold startSelect at ha; split at ha
+      · simp at ha
+      · simp at ha; subst ha; exact hfilt b hb
+
+/-- … and so does the hypothesis on stale offsets: in the state a cut leaves behind, the checkpoint the loader
+returns, `(dbX, X)`, is the newest entry and everything older is below it (or the same value in the same database) -/
+theorem resumed_stale (cfg : Cfg) (hres : cfg.resume = true) (evs : List Ev) (hwf : WF (received evs))
+    (hpl : ∀ it ∈ history evs, plainItem rc.ckName it = true)
+    (hinc : (received evs).Pairwise (fun a b => a.off < b.off))
+    (s0 : St D) (hq : s0.q = none) (B : Int) (bdb : Option Int) (hB : ∀ it ∈ received evs, B ≤ it.off)
+    (hstart : StartsAt rc.ckName B bdb s0.db (history evs))
+    (hstale : StaleBelow rc B bdb s0) (p : Nat) (dbX X : Int)
+    (hload : NewestCheckpoint (drop (replay rc.ckName apply s0 ((renderWire rc (run cfg S.init evs).2).take p)))
+      (offsetField rc) dbX X)
+    (hown : B ≤ X) :
+    StaleBelow rc X (some dbX)
+      (reconnect (drop (replay rc.ckName apply s0 ((renderWire rc (run cfg S.init evs).2).take p)))) := by
+  obtain ⟨done, rest, _, hsum⟩ :=
+    cut_summary apply rc cfg hres evs hwf s0 hq hpl hinc B bdb hB hstart.firstAt hstale p
+  generalize drop (replay rc.ckName apply s0 ((renderWire rc (run cfg S.init evs).2).take p)) = st at hload hsum
+  show OffDesc (offsetField rc) X (some dbX) st.ckpt
+  rcases hsum with ⟨_, h2, _⟩ | ⟨A, P, rest', _, _, _, h4, h5, _⟩
+  · rw [h2]
+    have hst : storedL s0.ckpt dbX (offsetField rc) = some X := by
+      have := hload.1; rw [Lemmas.Checkpoint.storedInt_eq, h2] at this; exact this
+    rcases hstale.lt dbX X hst with hlt | ⟨heq, hbdb⟩
+    · omega
+    · rw [heq, hbdb]; exact hstale
+  · have hnew := newest_of_head st (offsetField rc) st.db (lastOff A) _ rest' h4
+      (Lemmas.SyncBasic.parseIntU_fmtInt _) h5
+    obtain ⟨hx, hd⟩ := newest_unique st _ _ _ _ _ hload hnew
+    rw [h4, hx, hd]
+    simp only [OffDesc, if_true]
+    exact ⟨lastOff A, Lemmas.SyncBasic.parseIntU_fmtInt _, by simp, h5⟩
+
+/-- **Second crash.** `cut_consistent` for the resumed run: cut the first run at `p`, restart from the loaded
+checkpoint `(dbX, X)`, cut the second run at `p2` — the dataset is again the (resent) history up to the newest
+stored offset applied once to the state the first cut left, and the newest checkpoint's database is again the
+selected one. By `resumed_start`/`resumed_stale` this repeats for any number of restarts. -/
+theorem cut_consistent_resumed (cfg : Cfg) (hres : cfg.resume = true) (evs : List Ev) (hwf : WF (received evs))
+    (hpl : ∀ it ∈ history evs, plainItem rc.ckName it = true)
+    (hinc : (received evs).Pairwise (fun a b => a.off < b.off))
+    (s0 : St D) (hq : s0.q = none) (B : Int) (bdb : Option Int) (hB : ∀ it ∈ received evs, B ≤ it.off)
+    (hstart : StartsAt rc.ckName B bdb s0.db (history evs))
+    (hstale : StaleBelow rc B bdb s0) (p : Nat) (dbX X : Int)
+    (hload : NewestCheckpoint (drop (replay rc.ckName apply s0 ((renderWire rc (run cfg S.init evs).2).take p)))
+      (offsetField rc) dbX X)
+    (hown : B ≤ X)
+    (cfg2 : Cfg) (hres2 : cfg2.resume = true) (evs2 : List Ev)
+    (hrecv2 : received evs2 = resumeItems (received evs) dbX X) (p2 : Nat) :
+    let st1 := reconnect (drop (replay rc.ckName apply s0 ((renderWire rc (run cfg S.init evs).2).take p)))
+    let st2 := drop (replay rc.ckName apply st1 ((renderWire rc (run cfg2 S.init evs2).2).take p2))
+    (∀ dbY Y, NewestCheckpoint st2 (offsetField rc) dbY Y →
+      let upto := ((history evs2).filter (fun it => decide (it.off ≤ Y))).map cmdOf
+      st2.data = (plain rc.ckName apply st1 upto).data ∧
+      (X ≤ Y → (plain rc.ckName apply st1 upto).db = dbY)) ∧
+    ((∀ d, storedInt st2 d (offsetField rc) = none) → st2.data = st1.data) := by
+  intro st1 st2
+  obtain ⟨hs1, hs2, hs3⟩ := resumed_start rc (received evs) hinc dbX X
+    (drop (replay rc.ckName apply s0 ((renderWire rc (run cfg S.init evs).2).take p)))
+  have hwf2 : WF (received evs2) := by rw [hrecv2]; exact wf_resumeItems _ hwf hinc dbX X
+  have hpl2 : ∀ it ∈ history evs2, plainItem rc.ckName it = true := by
+    intro it hit
+    have : it ∈ nonMarkers (resumeItems (received evs) dbX X) := by rw [← hrecv2]; exact hit
+    rw [resumeItems, nonMarkers_append, startSelect_nonMarker, nonMarkers_filter] at this
+    rcases List.mem_append.mp this with h | h
+    · exact startSelect_plain _ _ _ it h
+    · exact hpl it (List.mem_filter.mp h).1
+  exact cut_consistent apply rc cfg2 hres2 evs2 hwf2 hpl2 (by rw [hrecv2]; exact hs3) st1 rfl X (some dbX)
+    (by rw [hrecv2]; exact hs2) (by show StartsAt _ _ _ _ (nonMarkers (received evs2)); rw [hrecv2]; exact hs1)
+    (resumed_stale apply rc cfg hres evs hwf hpl hinc s0 hq B bdb hB hstart hstale p dbX X hload hown) p2
+
+/-- **The checkpoint carries run id and version.** Under the hypotheses of `cut_consistent`, and if the `Db` tag of
+the items determines the connection's database (`DbTag`: what the parser emits without `target.db` satisfies it with
+`f (-1) = start database`, `f d = d`; it fails exactly in the situation of deviation D8): after any cut, the database
+of the checkpoint the loader must return also holds this run's `<source>-runid` and `<source>-version` — `runIdMap` is
+keyed per database, so a database that receives its first checkpoint also receives run id and version, atomically
+with it. -/
+theorem checkpoint_has_runid (cfg : Cfg) (hres : cfg.resume = true) (evs : List Ev) (hwf : WF (received evs))
+    (hpl : ∀ it ∈ history evs, plainItem rc.ckName it = true)
+    (hinc : (received evs).Pairwise (fun a b => a.off < b.off))
+    (s0 : St D) (hq : s0.q = none) (B : Int) (hB : ∀ it ∈ received evs, B ≤ it.off)
+    (hstale : StaleBelow rc B none s0) (p : Nat)
+    (f : Int → Int) (htag : DbTag rc.ckName f s0.db (history evs)) :
+    let st := drop (replay rc.ckName apply s0 ((renderWire rc (run cfg S.init evs).2).take p))
+    ∀ dbX X, NewestCheckpoint st (offsetField rc) dbX X → B ≤ X →
+      hget st dbX (runIdField rc) = some rc.runId ∧
+      hget st dbX (versionField rc) = some (fmtInt Generated.SyncConsts.fcvCheckpointCurrent) := by
+  intro st dbX X hn hown
+  -- the database of the newest checkpoint is the connection's database
+  have hstart : StartsAt rc.ckName B none s0.db (history evs) := Or.inl rfl
+  obtain ⟨done, rest, hsplit, hsum⟩ :=
+    cut_summary apply rc cfg hres evs hwf s0 hq hpl hinc B none hB hstart.firstAt hstale p
+  have hBn : ∀ it ∈ nonMarkers (received evs), B ≤ it.off := fun it hit => hB it (List.mem_filter.mp hit).1
+  obtain ⟨h1, _⟩ := summary_consistent apply rc s0 st (nonMarkers (received evs)) done rest hsplit
+    (increasing_nonMarkers _ hinc) hsum B none hBn hstart hstale
+  have hdb : st.db = dbX := (h1 dbX X hn).2.2 (Or.inr ⟨rfl, hown⟩)
+  -- the cut state as a whole number of groups
+  have facts := runG_facts cfg evs S.init inv_init hwf
+  have hitems : gItems (runG cfg S.init evs).2 ++ (runG cfg S.init evs).1.cache = history evs := by
+    simpa [S.init, history] using facts.items
+  have hplg : ∀ it ∈ gItems (runG cfg S.init evs).2, plainItem rc.ckName it = true := fun it hit => hpl it (by
+    rw [← hitems]; exact List.mem_append_left _ hit)
+  obtain ⟨_, hsm, _⟩ := shaped_small cfg hres _ _ _ facts.shaped
+  obtain ⟨k, _, hst⟩ := cut_groups apply rc s0 hq (runG cfg S.init evs).2 hplg hsm p
+  have hst' : st = plain rc.ckName apply s0 (((runG cfg S.init evs).2.take k).flatMap (groupBody rc)) := hst
+  obtain ⟨d1, hsh⟩ := Shaped.take cfg _ _ _ facts.shaped k
+  have hpre : history evs = gItems ((runG cfg S.init evs).2.take k) ++
+      (gItems ((runG cfg S.init evs).2.drop k) ++ (runG cfg S.init evs).1.cache) := by
+    rw [← hitems, ← List.append_assoc, ← gItems_append, List.take_append_drop]
+  have htagk : DbTag rc.ckName f s0.db (gItems ((runG cfg S.init evs).2.take k)) := by
+    rw [hpre] at htag
+    exact ((dbTag_append rc.ckName f s0.db _ _).mp htag).1
+  have hplk : ∀ it ∈ gItems ((runG cfg S.init evs).2.take k), plainItem rc.ckName it = true := by
+    intro it hit
+    apply hpl; rw [hpre]; exact List.mem_append_left _ hit
+  obtain ⟨_, _, h3⟩ := groups_runid apply rc cfg hres _ [] d1 (by simpa [S.init] using hsh) s0 f htagk hplk
+    (by intro k hk; simp at hk)
+  rw [← hst'] at h3
+  rcases h3 with ⟨hc, _⟩ | hok
+  · -- nothing written by this run: the newest checkpoint would be a stale one, below B
+    have := hn.1
+    rw [Lemmas.Checkpoint.storedInt_eq, hc] at this
+    rcases hstale.lt dbX X this with h | ⟨_, h⟩
+    · omega
+    · simp at h
+  · rw [hdb] at hok
+    exact hok
+
+/-- The `DbTag` hypothesis holds for what the real parser emits when no `target.db` is configured: items carry
+`Db = -1` until the first forwarded SELECT (the connection is then still in the start database) and the selected
+database afterwards. -/
+theorem parser_output_dbTag (pcfg : IncrParse.PCfg) (htdb : pcfg.targetDB = -1)
+    (hk : Lemmas.IncrParse.SelectNeutral pcfg) (startDb base : Int) (cmds : List IncrParse.SrcCmd)
+    (hn : Lemmas.IncrParse.Normalized cmds) (hno : Lemmas.ParseWF.NoSelectMinusOne cmds)
+    (hvalid : (IncrParse.parseFull pcfg startDb base cmds).2 = false) :
+    DbTag rc.ckName (Lemmas.ParseWF.tagFn startDb) 0 (nonMarkers (IncrParse.parse pcfg startDb base cmds)) :=
+  Lemmas.ParseWF.parse_dbTag rc.ckName pcfg htdb hk startDb base cmds hn hno hvalid
+
+end
+
+/-! ### 3. non-vacuity -/
+
+private def it (c : String) (a : List Bytes) (o d : Int) : Item := { cmd := c, args := a, off := o, db := d }
+
+private def demoEvs : List Ev :=
+  [.recv (it "select" [[49]] 10 1), .recv (it "set" [[97], [49]] 20 1), .tick true,
+   .recv (it "multi" [] 30 1), .recv (it "incr" [[97]] 40 1), .recv (it "exec" [] 50 1),
+   .recv (it "ping" [] 60 1), .tick true, .recv (it "select" [[50]] 70 2), .recv (it "incr" [[98]] 80 2), .tick true]
+
+private def demoRc : RenderCfg := { ckName := Generated.SyncConsts.checkpointKeyBytes, source := [115], runId := [114] }
+
+/-- the hypotheses of `cut_consistent`/`resume_equiv` are satisfiable by a two-database history with a
+transaction and a ping; the run produces four groups -/
+example : WF (received demoEvs) ∧
+    (∀ x ∈ history demoEvs, plainItem demoRc.ckName x = true) ∧
+    (received demoEvs).Pairwise (fun a b => a.off < b.off) ∧
+    (runG ⟨true, 100, 100000⟩ S.init demoEvs).2.length = 4 ∧
+    (run ⟨true, 100, 100000⟩ S.init demoEvs).1.cache = [] ∧
+    DbTag demoRc.ckName id 0 (history demoEvs) := by
+  decide
+
 end RSVerif.Properties.C04
